@@ -330,7 +330,7 @@ def tasks(tier):
         for N_, R_, mask_ in ((1, 2, 3), (1, 3, 5), (2, 2, 3), (2, 3, 6)):
             out.append({'cfg': {'N': N_, 'R': R_, 'mask': mask_, 'slow_upstream': True}, 'mode': 'stateful'})
         # multiprocessing.Queue's feeder threads modelled (put = local buffer; a feeder moves items to the pipe later)
-        for N_, R_, mask_ in ((1, 1, 1), (1, 2, 1), (1, 2, 2), (1, 3, 1), (1, 3, 5)):
+        for N_, R_, mask_ in ((1, 1, 1), (1, 2, 1), (1, 2, 2), (1, 3, 1), (1, 3, 5), (2, 1, 1)):
             out.append({'cfg': {'N': N_, 'R': R_, 'mask': mask_, 'feeder': True}, 'mode': 'stateful', 'max_exec': 60000})
         for N_, R_, mask_, boom_ in ((1, 2, 3, 1), (1, 3, 7, 2), (2, 2, 3, 3), (2, 3, 5, 4)):
             out.append({'cfg': {'N': N_, 'R': R_, 'mask': mask_, 'boom': boom_}, 'mode': 'stateful'})
